@@ -67,6 +67,7 @@ func freshStr(s string) bool                 { panic("ghost: freshStr is not exe
 func strViewOf(s string, b []byte) bool      { panic("ghost: strViewOf is not executable") }
 func validUTF8(s string) bool                { return utf8.ValidString(s) }
 func isNilSlice(b []byte) bool               { return b == nil }
+func rangeIdx() int                          { panic("ghost: rangeIdx is not executable") }
 func dynTypeIs(x interface{}, t string) bool { return fmt.Sprintf("%T", x) == t }
 func notPartOf(b []byte, x interface{}) bool { return true }
 
@@ -265,6 +266,7 @@ func lemmaReserve(state ws.State, size int, pay int) bool {
 
 //@ iface wsutil.SendExtension.SetBits(h ws.Header) (rh ws.Header, err error)
 //@   ensures [only-rsv] rh.Fin == h.Fin && rh.OpCode == h.OpCode && rh.Masked == h.Masked && rh.Mask == h.Mask && rh.Length == h.Length && rh.Rsv < 8
+//@   ensures [fn]       err == nil ==> rh.Rsv == ufSendRsv(self, h.OpCode, h.Fin, h.Length, h.Rsv)
 //@   assigns nothing
 
 // specB1 is the second header byte for a payload of n bytes.
@@ -309,16 +311,18 @@ func specExtLen(n int) int {
 //@   cases side: w.state&ws.StateClientSide != 0 | !(w.state&ws.StateClientSide != 0)
 //@   cases len: int64(w.n) < 126 && int64(w.n) <= 125 && int64(w.n) <= 65535 | !(int64(w.n) < 126) && !(int64(w.n) <= 125) && int64(w.n) <= 65535 | !(int64(w.n) < 126) && !(int64(w.n) <= 125) && !(int64(w.n) <= 65535)
 //@   requires [inv]  invWriter(w) && w.dest != nil
-//@   requires [rsv]  len(w.extensions) == 0
-//@   ensures  [calls] outCalls(w.dest) == old(outCalls(w.dest))+1
+//@   requires [rsv]  len(w.extensions) <= 1 && (len(w.extensions) == 1 ==> w.extensions[0] != nil)
+//@   ensures  [calls] len(w.extensions) == 0 ==> outCalls(w.dest) == old(outCalls(w.dest))+1
 //@   ensures  [len]  err == nil ==> outLen(w.dest) == old(outLen(w.dest))+specHdrLen(w.n, w.state&ws.StateClientSide != 0)+w.n
-//@   ensures  [b0]   err == nil ==> outByte(w.dest, old(outLen(w.dest))) == iteByte(fin, 0x80, 0)|byte(iteInt(w.fseq > 0, 0, int(w.op)))
+//@   ensures  [calls0] len(w.extensions) == 1 ==> outCalls(w.dest) <= old(outCalls(w.dest))+1
+//@   ensures  [b0]   err == nil && (len(w.extensions) == 0 || outCalls(w.dest) == old(outCalls(w.dest))+1) ==> outByte(w.dest, old(outLen(w.dest))) == iteByte(fin, 0x80, 0)|byte(iteInt(w.fseq > 0, 0, int(w.op)))|iteByte(len(w.extensions) == 1, ufSendRsv(w.extensions[0], w.opCode(), fin, int64(w.n), 0), 0)<<4
 //@   ensures  [b1]   err == nil ==> outByte(w.dest, old(outLen(w.dest))+1) == specB1(w.n, w.state&ws.StateClientSide != 0)
 //@   ensures  [ext]  err == nil ==> forall(0, specExtLen(w.n), func(k int) bool { return outByte(w.dest, old(outLen(w.dest))+2+k) == specExtByte(w.n, k) })
 //@   ensures  [payload] err == nil ==> forall(0, w.n, func(k int) bool { return outByte(w.dest, old(outLen(w.dest))+specHdrLen(w.n, w.state&ws.StateClientSide != 0)+k) == old(w.buf[k])^iteByte(w.state&ws.StateClientSide != 0, outByte(w.dest, old(outLen(w.dest))+specHdrLen(w.n, true)-4+k%4), 0) })
 //@   ensures  [keep] forall(0, old(outLen(w.dest)), func(k int) bool { return outByte(w.dest, k) == old(outByte(w.dest, k)) }) && outLen(w.dest) >= old(outLen(w.dest)) && outCalls(w.dest) >= old(outCalls(w.dest))
 //@   assigns bytes(w.raw), stream(w.dest)
 //@   loop 1 invariant [hdr] header.Fin == fin && header.Length == int64(w.n) && !header.Masked && header.Rsv < 8 && err == nil && header.OpCode == w.opCode() && (len(w.extensions) == 0 ==> header.Rsv == 0)
+//@   loop 1 invariant [rsv] (rangeIdx() < 0 ==> header.Rsv == 0) && (rangeIdx() >= 0 ==> header.Rsv == ufSendRsv(w.extensions[0], w.opCode(), fin, int64(w.n), 0)) && -1 <= rangeIdx() && rangeIdx() < len(w.extensions)
 
 // writerReady: what every public Writer method needs from its caller / leaves behind.
 func writerReady(w *Writer) bool {
@@ -370,23 +374,30 @@ func clientSide(s ws.State) bool { return s&ws.StateClientSide != 0 }
 //@ func pbytes.Put
 //@   assigns nothing
 
+// ufSendRsv: the RSV bits a send extension leaves in a header (extensions are assumed to be
+// functions of the header they are given; see the SendExtension contract).
+func ufSendRsv(x SendExtension, op ws.OpCode, fin bool, length int64, rsv byte) byte { return 0 }
+
 //@ func Writer.WriteThrough
 //@   props C06 C13 C16 C17
-//@   requires [ready] writerReady(w) && len(p) <= 1<<47
+//@   requires [ready] invWriter(w) && w.dest != nil && len(w.extensions) <= 1 && (len(w.extensions) == 1 ==> w.extensions[0] != nil) && len(p) <= 1<<47
 //@   cases side: w.state&ws.StateClientSide != 0 | !(w.state&ws.StateClientSide != 0)
 //@   cases len: int64(len(p)) <= 125 && int64(len(p)) <= 65535 | !(int64(len(p)) <= 125) && int64(len(p)) <= 65535 | !(int64(len(p)) <= 125) && !(int64(len(p)) <= 65535)
 //@   ensures  [dead]  old(w.err) != nil ==> n == 0 && err == old(w.err) && outCalls(w.dest) == old(outCalls(w.dest)) && w.fseq == old(w.fseq) && w.dirty == old(w.dirty)
 //@   ensures  [busy]  old(w.err) == nil && w.n != 0 ==> n == 0 && err == ErrNotEmpty && outCalls(w.dest) == old(outCalls(w.dest)) && w.fseq == old(w.fseq) && w.err == nil
-//@   ensures  [sent]  old(w.err) == nil && w.n == 0 ==> w.fseq == old(w.fseq)+1 && w.dirty && w.err == err && (err == nil ==> n == len(p)) && (err != nil ==> n == 0)
+//@   ensures  [sent]  len(w.extensions) == 0 && old(w.err) == nil && w.n == 0 ==> w.fseq == old(w.fseq)+1 && w.dirty && w.err == err && (err == nil ==> n == len(p)) && (err != nil ==> n == 0)
+//@   ensures  [extsent] len(w.extensions) == 1 && old(w.err) == nil && w.n == 0 && err == nil ==> w.fseq == old(w.fseq)+1 && w.dirty && n == len(p)
 //@   ensures  [len]   old(w.err) == nil && w.n == 0 && err == nil ==> outLen(w.dest) == old(outLen(w.dest))+specHdrLen(len(p), clientSide(w.state))+len(p)
-//@   ensures  [b0]    old(w.err) == nil && w.n == 0 && err == nil ==> outByte(w.dest, old(outLen(w.dest))) == byte(iteInt(old(w.fseq) > 0, 0, int(w.op)))
+//@   ensures  [b0]    old(w.err) == nil && w.n == 0 && err == nil ==> outByte(w.dest, old(outLen(w.dest))) == byte(iteInt(old(w.fseq) > 0, 0, int(w.op)))|iteByte(len(w.extensions) == 1, ufSendRsv(w.extensions[0], old(w.opCode()), false, int64(len(p)), 0), 0)<<4
 //@   ensures  [b1]    old(w.err) == nil && w.n == 0 && err == nil ==> outByte(w.dest, old(outLen(w.dest))+1) == specB1(len(p), clientSide(w.state))
 //@   ensures  [payload] old(w.err) == nil && w.n == 0 && err == nil ==> forall(0, len(p), func(k int) bool { return outByte(w.dest, old(outLen(w.dest))+specHdrLen(len(p), clientSide(w.state))+k) == p[k]^iteByte(clientSide(w.state), outByte(w.dest, old(outLen(w.dest))+specHdrLen(len(p), true)-4+k%4), 0) })
 //@   ensures  [keep]  forall(0, old(outLen(w.dest)), func(k int) bool { return outByte(w.dest, k) == old(outByte(w.dest, k)) }) && outLen(w.dest) >= old(outLen(w.dest)) && outCalls(w.dest) >= old(outCalls(w.dest))
-//@   ensures  [same]  w.n == old(w.n) && w.dest == old(w.dest) && w.op == old(w.op) && w.state == old(w.state) && w.noFlush == old(w.noFlush) && sameSlice(w.raw, old(w.raw)) && sameSlice(w.buf, old(w.buf)) && len(w.extensions) == 0
+//@   ensures  [same]  w.n == old(w.n) && w.dest == old(w.dest) && w.op == old(w.op) && w.state == old(w.state) && w.noFlush == old(w.noFlush) && sameSlice(w.raw, old(w.raw)) && sameSlice(w.buf, old(w.buf)) && len(w.extensions) == old(len(w.extensions))
 //@   ensures  [inv]   invWriter(w)
 //@   assigns w.err, w.dirty, w.fseq, stream(w.dest)
-//@   loop 1 invariant [hdr] !frame.Header.Fin && frame.Header.Length == int64(len(p)) && !frame.Header.Masked && frame.Header.Rsv == 0 && err == nil && frame.Header.OpCode == w.opCode() && isNilSlice(frame.Payload)
+//@   loop 1 invariant [hdr] !frame.Header.Fin && frame.Header.Length == int64(len(p)) && !frame.Header.Masked && frame.Header.Mask == [4]byte{} && frame.Header.Rsv < 8 && err == nil && frame.Header.OpCode == w.opCode() && isNilSlice(frame.Payload)
+//@   loop 1 invariant [rsv] (rangeIdx() < 0 ==> frame.Header.Rsv == 0) && (rangeIdx() >= 0 ==> frame.Header.Rsv == ufSendRsv(w.extensions[0], w.opCode(), false, int64(len(p)), 0))
+//@   loop 1 invariant [idx] -1 <= rangeIdx() && rangeIdx() < len(w.extensions)
 
 //@ func Writer.Grow
 //@   props C06
@@ -707,6 +718,7 @@ func idleReader(r *Reader) bool {
 
 //@ iface wsutil.RecvExtension.UnsetBits(h ws.Header) (rh ws.Header, err error)
 //@   ensures [only-rsv] rh.Fin == h.Fin && rh.OpCode == h.OpCode && rh.Masked == h.Masked && rh.Mask == h.Mask && rh.Length == h.Length
+//@   ensures [fn]       err == nil ==> rh.Rsv == ufRecvRsv(self, h.OpCode, h.Fin, h.Length, h.Rsv)
 //@   assigns nothing
 
 // io.Copy from a *io.LimitedReader over an abstract stream into a writer without side effects on the
@@ -733,25 +745,34 @@ func specUTF8Wanted(r *Reader, h ws.Header, st ws.State, op ws.OpCode) bool {
 	return r.CheckUTF8 && (h.OpCode == ws.OpText || (st&ws.StateFragmented != 0 && op == ws.OpText))
 }
 
+// ufRecvRsv: the RSV bits a receive extension leaves in a header (a function of the header).
+func ufRecvRsv(x RecvExtension, op ws.OpCode, fin bool, length int64, rsv byte) byte { return 0 }
+
+func sameHdrButRsv(a, b ws.Header) bool {
+	return a.Fin == b.Fin && a.OpCode == b.OpCode && a.Masked == b.Masked && a.Mask == b.Mask && a.Length == b.Length
+}
+
 //@ func Reader.NextFrame
 //@   props C04 C05 C07 C13 C15 C16
 //@   call Reader.fragmented inline
-//@   requires [inv]   invReader(r) && streamOK(r.Source) && r.raw.N == 0 && len(r.Extensions) == 0 && r.OnContinuation == nil && r.OnIntermediate == nil
+//@   requires [inv]   invReader(r) && streamOK(r.Source) && r.raw.N == 0 && len(r.Extensions) <= 1 && (len(r.Extensions) == 1 ==> r.Extensions[0] != nil) && r.OnContinuation == nil && r.OnIntermediate == nil
 //@   ensures  [cut]   !(inEnd(r.Source)-old(inPos(r.Source)) >= 2 && inEnd(r.Source)-old(inPos(r.Source)) >= ws.VSpecNeed(inByte(r.Source, old(inPos(r.Source))+1))) ==> err != nil
-//@   ensures  [cutfrag] err == io.EOF ==> old(r.State)&ws.StateFragmented == 0
+//@   ensures  [cutfrag] len(r.Extensions) == 0 && err == io.EOF ==> old(r.State)&ws.StateFragmented == 0
 //@   ensures  [reject] hdrComplete(r.Source, old(inPos(r.Source))) && !r.SkipHeaderCheck && !ws.VSpecHeaderOK(ws.VSpecDecode(r.Source, old(inPos(r.Source))), old(r.State)) ==> err != nil
 //@   ensures  [limit] hdrComplete(r.Source, old(inPos(r.Source))) && (r.SkipHeaderCheck || ws.VSpecHeaderOK(ws.VSpecDecode(r.Source, old(inPos(r.Source))), old(r.State))) && r.MaxFrameSize > 0 && ws.VSpecDecode(r.Source, old(inPos(r.Source))).Length > r.MaxFrameSize ==> err == ErrFrameTooLarge && inPos(r.Source) == old(inPos(r.Source))+ws.VSpecNeed(inByte(r.Source, old(inPos(r.Source))+1))
 //@   ensures  [failsame] !hdrAccepted(r, r.Source, old(inPos(r.Source)), old(r.State)) ==> err != nil && r.frame == old(r.frame) && r.raw.N == old(r.raw.N) && r.raw.R == old(r.raw.R) && r.State == old(r.State) && r.opCode == old(r.opCode) && r.utf8.state == old(r.utf8.state) && r.utf8.Source == old(r.utf8.Source)
-//@   ensures  [hdr]   hdrAccepted(r, r.Source, old(inPos(r.Source)), old(r.State)) ==> hdr == ws.VSpecDecode(r.Source, old(inPos(r.Source)))
-//@   ensures  [data]  hdrAccepted(r, r.Source, old(inPos(r.Source)), old(r.State)) && !(old(r.State)&ws.StateFragmented != 0 && hdr.OpCode >= 8) ==> err == nil && r.raw.R == r.Source && r.raw.N == hdr.Length && inPos(r.Source) == old(inPos(r.Source))+ws.VSpecNeed(inByte(r.Source, old(inPos(r.Source))+1)) && (r.State&ws.StateFragmented != 0) == !hdr.Fin && r.State&^ws.StateFragmented == old(r.State)&^ws.StateFragmented
-//@   ensures  [opcode] hdrAccepted(r, r.Source, old(inPos(r.Source)), old(r.State)) && !(old(r.State)&ws.StateFragmented != 0 && hdr.OpCode >= 8) ==> r.opCode == ws.OpCode(iteInt(old(r.State)&ws.StateFragmented != 0, int(old(r.opCode)), int(hdr.OpCode)))
-//@   ensures  [chain] hdrAccepted(r, r.Source, old(inPos(r.Source)), old(r.State)) && !(old(r.State)&ws.StateFragmented != 0 && hdr.OpCode >= 8) ==> (hdr.Masked ==> r.cr != nil && r.cr.r == io.Reader(&r.raw) && r.cr.mask == hdr.Mask && r.cr.pos == 0) && (specUTF8Wanted(r, hdr, old(r.State), r.opCode) ==> r.frame == io.Reader(&r.utf8) && r.utf8.state == old(r.utf8.state) && r.utf8.Source == iteReader(hdr.Masked, io.Reader(r.cr), io.Reader(&r.raw))) && (!specUTF8Wanted(r, hdr, old(r.State), r.opCode) ==> r.frame == iteReader(hdr.Masked, io.Reader(r.cr), io.Reader(&r.raw)) && r.utf8.state == old(r.utf8.state))
-//@   ensures  [ctl]   hdrAccepted(r, r.Source, old(inPos(r.Source)), old(r.State)) && old(r.State)&ws.StateFragmented != 0 && hdr.OpCode >= 8 ==> r.State == old(r.State) && r.opCode == old(r.opCode) && r.utf8.state == old(r.utf8.state) && r.frame == old(r.frame) && (err == nil ==> r.raw.N == 0) && r.raw.R == r.Source
+//@   ensures  [hdr]   len(r.Extensions) == 0 && hdrAccepted(r, r.Source, old(inPos(r.Source)), old(r.State)) ==> hdr == ws.VSpecDecode(r.Source, old(inPos(r.Source)))
+//@   ensures  [hdrx]  len(r.Extensions) == 1 && err == nil && hdrAccepted(r, r.Source, old(inPos(r.Source)), old(r.State)) ==> sameHdrButRsv(hdr, ws.VSpecDecode(r.Source, old(inPos(r.Source)))) && hdr.Rsv == ufRecvRsv(r.Extensions[0], ws.VSpecDecode(r.Source, old(inPos(r.Source))).OpCode, ws.VSpecDecode(r.Source, old(inPos(r.Source))).Fin, ws.VSpecDecode(r.Source, old(inPos(r.Source))).Length, ws.VSpecDecode(r.Source, old(inPos(r.Source))).Rsv)
+//@   ensures  [data]  len(r.Extensions) == 0 && hdrAccepted(r, r.Source, old(inPos(r.Source)), old(r.State)) && !(old(r.State)&ws.StateFragmented != 0 && hdr.OpCode >= 8) ==> err == nil && r.raw.R == r.Source && r.raw.N == hdr.Length && inPos(r.Source) == old(inPos(r.Source))+ws.VSpecNeed(inByte(r.Source, old(inPos(r.Source))+1)) && (r.State&ws.StateFragmented != 0) == !hdr.Fin && r.State&^ws.StateFragmented == old(r.State)&^ws.StateFragmented
+//@   ensures  [opcode] len(r.Extensions) == 0 && hdrAccepted(r, r.Source, old(inPos(r.Source)), old(r.State)) && !(old(r.State)&ws.StateFragmented != 0 && hdr.OpCode >= 8) ==> r.opCode == ws.OpCode(iteInt(old(r.State)&ws.StateFragmented != 0, int(old(r.opCode)), int(hdr.OpCode)))
+//@   ensures  [chain] len(r.Extensions) == 0 && hdrAccepted(r, r.Source, old(inPos(r.Source)), old(r.State)) && !(old(r.State)&ws.StateFragmented != 0 && hdr.OpCode >= 8) ==> (hdr.Masked ==> r.cr != nil && r.cr.r == io.Reader(&r.raw) && r.cr.mask == hdr.Mask && r.cr.pos == 0) && (specUTF8Wanted(r, hdr, old(r.State), r.opCode) ==> r.frame == io.Reader(&r.utf8) && r.utf8.state == old(r.utf8.state) && r.utf8.Source == iteReader(hdr.Masked, io.Reader(r.cr), io.Reader(&r.raw))) && (!specUTF8Wanted(r, hdr, old(r.State), r.opCode) ==> r.frame == iteReader(hdr.Masked, io.Reader(r.cr), io.Reader(&r.raw)) && r.utf8.state == old(r.utf8.state))
+//@   ensures  [ctl]   len(r.Extensions) == 0 && hdrAccepted(r, r.Source, old(inPos(r.Source)), old(r.State)) && old(r.State)&ws.StateFragmented != 0 && hdr.OpCode >= 8 ==> r.State == old(r.State) && r.opCode == old(r.opCode) && r.utf8.state == old(r.utf8.state) && r.frame == old(r.frame) && (err == nil ==> r.raw.N == 0) && r.raw.R == r.Source
 //@   ensures  [mono]  inPos(r.Source) >= old(inPos(r.Source))
-//@   ensures  [cfg]   len(r.Extensions) == 0 && r.OnContinuation == nil && r.OnIntermediate == nil
+//@   ensures  [cfg]   len(r.Extensions) == old(len(r.Extensions)) && r.OnContinuation == nil && r.OnIntermediate == nil
 //@   ensures  [inv]   invReader(r) && streamOK(r.Source) && r.Source == old(r.Source) && r.CheckUTF8 == old(r.CheckUTF8)
 //@   assigns *r, *r.cr, stream(r.Source)
-//@   loop 1 invariant [hdr] hdr == ws.VSpecDecode(r.Source, old(inPos(r.Source))) && err == nil
+//@   loop 1 invariant [hdr] sameHdrButRsv(hdr, ws.VSpecDecode(r.Source, old(inPos(r.Source)))) && err == nil && -1 <= rangeIdx() && rangeIdx() < len(r.Extensions)
+//@   loop 1 invariant [rsv] (rangeIdx() < 0 ==> hdr == ws.VSpecDecode(r.Source, old(inPos(r.Source)))) && (rangeIdx() >= 0 ==> hdr.Rsv == ufRecvRsv(r.Extensions[0], ws.VSpecDecode(r.Source, old(inPos(r.Source))).OpCode, ws.VSpecDecode(r.Source, old(inPos(r.Source))).Fin, ws.VSpecDecode(r.Source, old(inPos(r.Source))).Length, ws.VSpecDecode(r.Source, old(inPos(r.Source))).Rsv))
 
 func iteReader(c bool, a, b io.Reader) io.Reader {
 	if c {
